@@ -9,6 +9,8 @@ A template is a list of tokens:
     Lit(v)       F.lit(v)
     E("...")     a Python expression over F (the function module of the library under test), e.g. E("F.col('j') + 1")
     KW(name, tok) keyword argument
+    Tag("kind")  not an argument: the kind of input this template stands for (e.g. "index-expression"), so that a finding
+                 is identified by (function, aspect, kind of input) and not by which template numbers happen to fail
 """
 from __future__ import annotations
 
@@ -67,6 +69,8 @@ class E:      # python expression over F
     def __init__(self, src): self.src = src
 class KW:
     def __init__(self, name, tok): self.name, self.tok = name, tok
+class Tag:    # names the KIND of input a template exercises; becomes the last component of a finding's signature
+    def __init__(self, name): self.name = name
 
 
 # ---------------------------------------------------------------------------------------------------------------
@@ -97,13 +101,13 @@ ROW["unhex"] = [["hx"]]
 ROW.update(_same(["bitwiseNOT", "bitwise_not"], [["i"]]))
 ROW.update(_same(["shiftleft", "shiftLeft"], [["i", L(2)]]))
 ROW.update(_same(["shiftright", "shiftRight"], [["i", L(1)]]))
-ROW["nanvl"] = [["x", "y"], [E("F.lit(float('nan'))"), "y"], [E("F.lit(None).cast('double')"), "y"]]
+ROW["nanvl"] = [["x", "y"], [E("F.lit(float('nan'))"), "y"], [E("F.lit(None).cast('double')"), "y", Tag("null-first-argument")]]
 ROW["e"] = [[]]
 ROW.update(_same(["greatest", "least"], [["i", "j", "k"], ["x", "y"]]))
 # strings
 ROW.update(_same(["ascii", "base64", "bit_length", "char_length", "character_length", "lcase", "length", "lower", "md5",
                   "sha", "sha1", "soundex", "ucase", "upper"], [["s"]]))
-ROW["reverse"] = [["s"], ["a"]]
+ROW["reverse"] = [["s"], ["a", Tag("array")]]
 ROW["unbase64"] = [["b64"]]
 ROW["btrim"] = [["w"], ["s", "t"]]
 ROW.update(_same(["ltrim", "rtrim", "trim"], [["w"]]))
@@ -120,7 +124,7 @@ ROW["locate"] = [[L("b"), "s"], [L("b"), "s", L(3)], [L("l"), "s", L(5)]]
 ROW["lpad"] = [["s", L(12), L("*")], ["s", L(3), L("*")], ["t", L(7), L("ab")]]
 ROW["rpad"] = [["s", L(12), L("*")], ["s", L(3), L("*")], ["t", L(7), L("ab")]]
 ROW.update(_same(["left", "right"], [["s", "j"], ["s", Lit(4)]]))
-ROW["sha2"] = [["s", L(256)], ["s", L(512)], ["s", L(0)]]
+ROW["sha2"] = [["s", L(256)], ["s", L(512), Tag("numBits-512")], ["s", L(0)]]
 ROW["overlay"] = [["s", "t", L(2)], ["s", "t", L(2), L(3)], ["s", "t", "j"], ["s", "t", "j", "j"]]
 ROW["position"] = [["t", "s"], ["t", "s", "j"]]
 ROW.update(_same(["regexp", "regexp_like", "rlike"], [["s", Lit("[a-c]+")], ["s", Lit("^[A-Z]")]]))
@@ -128,7 +132,7 @@ ROW["regexp_extract"] = [["s", L("([a-z]+)b"), L(1)], ["s", L("[a-z]+"), L(0)]]
 ROW["regexp_replace"] = [["s", L("[ab]"), L("#")], ["s", L("l+"), L("L")]]
 ROW["repeat"] = [["t", L(3)], ["t", L(0)]]
 ROW["replace"] = [["s", "t"], ["s", "t", Lit("_")]]
-ROW["split"] = [["s", L(",")], ["s", L(","), L(2)], ["s", L("[ ,]")]]
+ROW["split"] = [["s", L(",")], ["s", L(","), L(2), Tag("limit")], ["s", L("[ ,]")]]
 ROW["split_part"] = [["s", Lit(","), "j"], ["s", Lit(" "), Lit(1)]]
 ROW["substr"] = [["s", "j"], ["s", "j", "j"]]
 ROW["substring"] = [["s", L(2), L(3)], ["s", L(1), L(100)], ["s", L(-3), L(2)]]
@@ -143,12 +147,12 @@ ROW["nullif"] = [["i", "k"], ["j", "j"]]
 ROW["isnull"] = [["n1"]]
 # dates and times
 ROW["add_months"] = [["d", L(2)], ["d", L(-3)], ["d", "j"]]
-ROW.update(_same(["date_add", "date_sub", "dateadd"], [["d", L(5)], ["d", L(-5)], ["d", "ji"]]))
+ROW.update(_same(["date_add", "date_sub", "dateadd"], [["d", L(5), Tag("int-days")], ["d", L(-5), Tag("int-days")], ["d", "ji", Tag("column-days")]]))
 ROW.update(_same(["date_diff", "datediff"], [["e", "d"]]))
 ROW["date_format"] = [["ts", L("yyyy-MM-dd HH:mm:ss")], ["d", L("MM/dd/yyyy")], ["ts", L("yy-M-d H:m:s")], ["ts", L("EEE MMM")]]
 ROW["date_trunc"] = [[L("month"), "ts"], [L("hour"), "ts"], [L("year"), "ts"]]
 ROW.update(_same(["day", "dayofmonth", "dayofweek", "dayofyear", "month", "quarter", "weekofyear", "year"], [["d"], ["ts"], ["ds"]]))
-ROW.update(_same(["hour", "minute", "second"], [["ts"], ["tss"]]))
+ROW.update(_same(["hour", "minute", "second"], [["ts"], ["tss", Tag("timestamp-string")]]))
 ROW["extract"] = [[Lit("YEAR"), "d"], [Lit("MONTH"), "ts"]]
 ROW["from_unixtime"] = [["ep"], ["ep", L("yyyy-MM-dd")]]
 ROW["last_day"] = [["d"], ["ds"]]
@@ -174,12 +178,14 @@ ROW.update(_same(["array_intersect", "array_union", "arrays_overlap"], [["a", "b
 ROW["array_join"] = [["sa", L(",")], ["sa", L(""), L("?")]]
 ROW["array_position"] = [["a", L(5)], ["a", L(2)], ["a", L(99)], ["sa", L("a")]]
 ROW["array_remove"] = [["a", L(5)], ["a", L(2)], ["sa", L("x")]]
-ROW["element_at"] = [["a", L(1)], ["a", L(2)], ["a", L(-1)], ["a", L(9)], ["a", E("F.col('ji')")],
-                     ["a", E("F.col('ji') + 1")], ["a", E("F.col('j').cast('int')")]]
-ROW["try_element_at"] = [["a", Lit(1)], ["a", Lit(-1)], ["a", Lit(9)], ["a", "ji"], ["a", E("F.col('ji') + 1")]]
+_LI, _CI, _IE, _TI = Tag("literal-index"), Tag("column-index"), Tag("index-expression"), Tag("typed-index")
+ROW["element_at"] = [["a", L(1), _LI], ["a", L(2), _LI], ["a", L(-1), _LI], ["a", L(9), _LI], ["a", E("F.col('ji')"), _CI],
+                     ["a", E("F.col('ji') + 1"), _IE], ["a", E("F.col('j').cast('int')"), _TI]]
+ROW["try_element_at"] = [["a", Lit(1), _LI], ["a", Lit(-1), _LI], ["a", Lit(9), _LI], ["a", "ji", _CI], ["a", E("F.col('ji') + 1"), _IE]]
 ROW["flatten"] = [["aa"]]
-ROW["sequence"] = [["j", "k"], ["j", Lit(20), "j"], [Lit(5), Lit(1)]]
-ROW["slice"] = [["a", L(1), L(2)], ["a", L(2), L(2)], ["a", L(2), L(9)], ["a", "ji", "ji"], ["a", L(-2), L(2)]]
+ROW["sequence"] = [["j", "k", Tag("default-step")], ["j", Lit(20), "j", Tag("explicit-step")], [Lit(5), Lit(1), Tag("default-step")]]
+ROW["slice"] = [["a", L(1), L(2), Tag("positive-start")], ["a", L(2), L(2), Tag("positive-start")], ["a", L(2), L(9), Tag("positive-start")],
+                ["a", "ji", "ji", Tag("column-arguments")], ["a", L(-2), L(2), Tag("negative-start")]]
 ROW["sort_array"] = [["a"], ["a", L(False)], ["sa"]]
 ROW["create_map"] = [[Lit("k"), "i"], [Lit("a"), "s", Lit("b"), "t"]]
 ROW["map_from_arrays"] = [["sa", "a"]]
@@ -193,7 +199,8 @@ ROW["when"] = [[E("F.col('i') > 0"), L(1)], [E("F.col('x') < 0"), Lit("neg")]]
 ROW["call_function"] = [[L("abs"), "x"]]
 ROW["input_file_name"] = [[]]
 # Column.getItem (not a function; the index-base shift of element_at rests on it and the task lists it)
-ROW["Column.getItem"] = [[E("F.col('a')"), L(0)], [E("F.col('a')"), L(1)], [E("F.col('a')"), E("F.col('ji')")]]
+ROW["Column.getItem"] = [[E("F.col('a')"), L(0), Tag("literal-key")], [E("F.col('a')"), L(1), Tag("literal-key")],
+                         [E("F.col('a')"), E("F.col('ji')"), Tag("column-key")]]
 
 AGG: dict[str, list[list]] = {}
 AGG.update(_same(["avg", "mean", "median", "kurtosis", "skewness", "stddev", "stddev_pop", "stddev_samp", "var_pop",
@@ -265,9 +272,11 @@ def all_calls():
     for mode, table in (("row", ROW), ("agg", AGG)):
         for fn in sorted(table):
             for n, tpl in enumerate(table[fn]):
-                args = [tok_json(t) for t in tpl if not isinstance(t, KW)]
+                args = [tok_json(t) for t in tpl if not isinstance(t, (KW, Tag))]
                 kwargs = {t.name: tok_json(t.tok) for t in tpl if isinstance(t, KW)}
-                out.append({"id": f"{fn}#{n}", "fn": fn, "mode": mode, "args": args, "kwargs": kwargs})
+                tags = [t.name for t in tpl if isinstance(t, Tag)]
+                out.append({"id": f"{fn}#{n}", "fn": fn, "mode": mode, "args": args, "kwargs": kwargs,
+                            "tag": tags[0] if tags else None})
     return out
 
 
